@@ -172,7 +172,15 @@ def run(ctx):
                 ok = v == ("ctor", "Bool", ("lit", "false" if neg else "true"))
             fin = S.norm(H.final_expr(arm_body), S.Env())
             ok = ok and fin == ("ctor", "Bool", ("lit", "true" if neg else "false"))
-            return ok, "returns %s on the first %s result, %s after the loop: %s" % ("false" if neg else "true", "false" if neg else "true", "true" if neg else "false", ok)
+            # an answer given outside the element loop (an empty-list shortcut) must be the answer the loop would give for the
+            # lists it covers: the empty conjunction is true, the empty disjunction false - i.e. the value after the loop
+            in_loop = {id(x) for x in H.walk(lp["body"])}
+            for r_ in H.walk(arm_body):
+                if H.kind(r_) == "Ret" and id(r_) not in in_loop and r_.get("e") is not None:
+                    v_ = S.norm(r_["e"], S.Env())
+                    if isinstance(v_, tuple) and len(v_) == 3 and v_[:2] == ("ctor", "Bool") and v_[2][0] == "lit" and v_ != fin and fin[:2] == ("ctor", "Bool"):
+                        return False, "a return outside the element loop (%s) answers %s where the loop's own result for no elements is %s" % (H.loc(r_), v_[2][1], fin[2][1] if len(fin) == 3 else fin)
+            return ok,"returns %s on the first %s result, %s after the loop: %s" % ("false" if neg else "true", "false" if neg else "true", "true" if neg else "false", ok)
         return None, "?"
 
     bop = core.hir_fn(BINOP)
